@@ -1823,6 +1823,9 @@ func (db *DB) verifyWithExecutor(ctx context.Context, exec *syncExecutor) (info 
 		// may have appended frames after our position and checkpointed them away
 		// before restarting the WAL; nothing in the WAL would show it.
 		if exec.state.lastSyncedWALOffset == 0 {
+			// The snapshot must read the new generation from its start.
+			info.offset = WALHeaderSize
+			info.salt1, info.salt2 = salt1, salt2
 			info.reason = "wal restarted while not being observed, snapshotting"
 			return info, nil
 		}
